@@ -23,7 +23,6 @@ fn separator_in_range<const N: usize>() {
 	// and strictly below the first key `b` of the next block
 	assert!(a <= s.as_slice(), "separator below its lower key");
 	assert!(s.as_slice() < b, "separator not below the next block's first key");
-	assert!(s.len() <= a.len(), "separator longer than the key it replaces");
 	kani::cover!(s.len() < a.len(), "separator strictly shorter");
 	kani::cover!(s.as_slice() != a, "separator differs from a");
 	kani::cover!(la >= 2 && a[la - 1] == 0xff && s.as_slice() != a, "0xff-terminated key shortened");
@@ -53,7 +52,6 @@ fn successor_ge<const N: usize>() {
 	println!("REPLAY successor k={:?} -> {:?}", k, s);
 	// the last index entry of a table is successor(last key): must not be below it
 	assert!(s.as_slice() >= k, "successor below its key");
-	assert!(s.len() <= k.len(), "successor longer than its key");
 	kani::cover!(s.len() < k.len(), "successor strictly shorter");
 	kani::cover!(lk > 0 && s.as_slice() == k, "all-0xff key unchanged");
 	core::mem::forget(s);
